@@ -27,10 +27,10 @@
 (*   addAny        blocks added in node order instead of residue-id order                  *)
 (*   firstMatchOnly a link is applied to the first match found only                        *)
 (*   orientLink    the stored orientation of a residue edge decides the link direction     *)
-(*   dfsTreeFrag   fragments are the components over depth-first TREE edges only   (open finding) *)
+(*   dfsTreeFrag   fragments are the components over depth-first TREE edges only  (F31, repaired) *)
 (*   fragIdOrder   block-copy correspondences are stored in merge order but looked up by an  *)
-(*                 id assigned in component-iteration order                        (open finding) *)
-(*   itpGlobal     finishing an .itp file re-tags the versions of all links read so far (open finding) *)
+(*                 id assigned in component-iteration order                       (F32, repaired) *)
+(*   itpGlobal     finishing an .itp file re-tags the versions of all links read so far (F33, repaired) *)
 (***************************************************************************)
 EXTENDS IndependenceBase
 
